@@ -1,5 +1,5 @@
 """C16 finding: modules.json follows A's `display`.  With `display: private` the public procedure `solve` is
-exported with the URL of a page A never wrote; with `display: public private protected` the private procedure
+exported with the URL of a page A never wrote (repaired: it is left out); with `display: public private protected` the private procedure
 `hidden` is listed.  Exit 1 while the defect is present.  Run with PYTHONPATH=/repo:/verif."""
 import json
 import sys
@@ -11,10 +11,13 @@ try:
     err, _ = p.build_A()
     assert err is None, err
     m = json.loads((p.root / "A" / "doc" / "modules.json").read_text())["modules"][0]
-    url = m["pub_procs"]["solve"]["external_url"]
-    exists = (p.root / "A" / "doc" / url).is_file()
-    print("display: private -> solve exported as", url, "page written:", exists)
-    bad += not exists
+    if "solve" in m["pub_procs"]:
+        url = m["pub_procs"]["solve"]["external_url"]
+        exists = (p.root / "A" / "doc" / url).is_file()
+        print("display: private -> solve exported as", url, "page written:", exists)
+        bad += not exists
+    else:
+        print("display: private -> solve is not exported (dead-link half repaired)")
 finally:
     p.close()
 p = Pair(a_extra=["display: public", "    private", "    protected"])
